@@ -543,6 +543,18 @@ func init() {
 				}
 			}
 		}
+		// a re-delegated attestation: what the parent delegation pins (this token, another token, nothing, null, `*`)
+		for pp := 0; pp < 6; pp++ {
+			for _, attested := range []string{"this", "other"} {
+				for pos := 1; pos <= 2; pos++ {
+					w, label := sessionWorld(o.seed, id, sessOpts{Attested: attested, AttIssuer: "delegate", Resource: "authority", Window: "valid", Pos: pos, Resolver: "absent", ParentProof: pp})
+					w.ID = id
+					labels[id] = label
+					worlds = append(worlds, w)
+					id++
+				}
+			}
+		}
 		// a non-key authority and principals / resources whose DID text extends the authority's
 		for _, iss := range []string{"authority", "lookalike", "stranger"} {
 			for _, res := range []string{"authority", "lookalike"} {
@@ -1063,7 +1075,7 @@ func init() {
 	gens["C03"] = func(o genOpts) error {
 		st := newWorldStats()
 		labels := map[int]string{}
-		positions := []string{"invocation", "proof1", "proof2", "proof3", "proof4", "attestation", "attest-parent", "resolver-proof"}
+		positions := []string{"invocation", "proof1", "proof2", "proof3", "proof4", "attestation", "attest-parent", "resolver-proof", "proof1-twin", "proof2-twin"}
 		expOffs := []int{-9, -8, -7, -100000, -1, 0, 1, 100000} // -9 unset, -8 / -7 the absolute values 0 and 1
 		nbfOffs := []int{-9, -100000, -1, 0, 1, 100000}         // -9: unset
 		var todo []timedCase
@@ -1252,6 +1264,27 @@ func timedWorld(seed int64, id int, tc timedCase, t int) (*World, string) {
 		apply(specs[depth-2])
 		specs[depth-1].Proofs[0].Inline = false
 		w.Ctx.Resolvable[specs[depth-2].Name] = true
+	case "proof1-twin", "proof2-twin":
+		// the proof with the window under test is cited right AFTER another copy of it that is long expired
+		k := int(tc.pos[5] - '0')
+		target := specs[depth-k]
+		apply(target)
+		tw := *target
+		past := t - 100000
+		tw.Name, tw.Nonce, tw.Exp, tw.Nbf = target.Name+"_twin", "twin", &past, 0
+		tw.Caps = append([]CapSpec{}, target.Caps...)
+		tw.Proofs = append([]ProofRef{}, target.Proofs...)
+		citing := specs[depth-k+1]
+		citing.Proofs = append([]ProofRef{{Tok: tw.Name, Inline: true}}, citing.Proofs...)
+		// insert the twin before the citing token
+		var out []*TokSpec
+		for _, sp := range specs {
+			if sp == citing {
+				out = append(out, &tw)
+			}
+			out = append(out, sp)
+		}
+		w.Specs = out
 	}
 	return w, label
 }
